@@ -780,7 +780,8 @@ def catalogue(tier):
         plan(RL, [dict(op='triangulate', col=2)], 'R2x2ljust/triangulate/c2')
     plan(RF, [dict(op='refine', sel=[0], bisect='y', edge=[1, 3])], 'R2x2flip/bisect-y+edge/0|13')
     plan(RA, [dict(op='split', col=0, node=1)], 'R2x2altflip/split/c0n1')
-    plan(RF, [dict(op='refine', sel=[0]), dict(op='refine', sel='triangles', bisect=True)], 'R2x2flip/bisect-after-refine/0>triangles')
+    if thorough:      # 16 paths (every triangle forks on the order of its sides)
+        plan(RF, [dict(op='refine', sel=[0]), dict(op='refine', sel='triangles', bisect=True)], 'R2x2flip/bisect-after-refine/0>triangles')
     # --- refine on RECT(3x3) --------------------------------------------------------
     if thorough:
         sels = {}
